@@ -1,16 +1,30 @@
 import CanvasGen.CoreK
 import CanvasGen.BezierK
+import CanvasProofs.Lemmas.C07Basics
+import CanvasProofs.Lemmas.C07Eigen
+import CanvasProofs.Lemmas.C07Arc
+import CanvasProofs.Lemmas.C07Decompose
+import CanvasProofs.Lemmas.C07Pred
+import CanvasProofs.Lemmas.C07Form
+import CanvasProofs.Lemmas.C07Svg
+import CanvasProofs.Lemmas.C07Real
 import Mathlib.Tactic.Ring
 import Mathlib.Tactic.FieldSimp
 import Mathlib.Tactic.Linarith
 import Mathlib.Tactic.Positivity
 
 /-! # C07 — Matrix algebra and affine images of Bézier segments
-All definitions are the *generated* translations of /repo/util.go and /repo/path_util.go
-(`GenK`), over an arbitrary linearly ordered field `K`. -/
+The first part is about the *generated* translations of /repo/util.go and /repo/path_util.go (`GenK`),
+over an arbitrary linearly ordered field `K`. The second part (from `rotate_dot` on) is about the
+hand-written model `Canvas.C07` (CanvasModel/C07.lean) of `Matrix.Rotate`, `solveQuadraticFormula`,
+`Matrix.Eigen`, the ArcTo case and the loop of `Path.Transform`, and `Matrix.ToSVG`, instantiated with the
+generated definitions (`C07.opsK`); that model is compared with the real functions on every run.
+Hypotheses used: `Laws K` (CanvasProofs/Lemmas/C07Basics.lean: `sqrt(x)² = x` for `x ≥ 0`,
+`hypot(x,y)² = x²+y²`, addition formulas, `atan2` is the angle of a vector, `π ≠ 0` — satisfied by the
+real functions, `C07.lawsReal`) and, where stated, exact comparisons `Env.epsilon = 0`. -/
 set_option linter.unusedSectionVars false
 namespace C07
-open Canvas GenK
+open Canvas GenK Canvas.C07
 variable {K : Type} [Field K] [LinearOrder K] [IsStrictOrderedRing K] [Env K]
 
 def ident : Mat K := Mat.mk 1 0 0 0 1 0
@@ -155,6 +169,399 @@ theorem rect_transform_contains (m : Mat K) (r : Rct K) (p : Pt K)
       · exact (min_le_of_right_le (min_le_of_right_le (min_le_left _ _))).trans (by nlinarith)
       · exact le_trans (by nlinarith) (le_max_left _ _)
   exact ⟨(key m.a m.b m.c).1, (key m.a m.b m.c).2, (key m.d m.e m.f).1, (key m.d m.e m.f).2⟩
+
+
+/-! ## Inverse, determinant -/
+
+theorem det_inv (m : Mat K) (h : Matrix.Det m ≠ 0) : Matrix.Det (Matrix.Inv m) = 1 / Matrix.Det m := by
+  cases m with | mk a b c d e f =>
+  simp only [Matrix.Det] at h
+  simp only [Matrix.Inv, Matrix.Det]
+  generalize hD : a * e - b * d = D at h ⊢
+  field_simp
+  rw [← hD]; ring
+
+/-- the inverse is unique: any left inverse is `Inv m` -/
+theorem inv_unique (m q : Mat K) (h : Matrix.Det m ≠ 0) (hq : Matrix.Mul q m = ident) : q = Matrix.Inv m := by
+  have h1 : Matrix.Mul (Matrix.Mul q m) (Matrix.Inv m) = Matrix.Inv m := by rw [hq, identity_mul]
+  rw [mul_assoc, mul_inv m h, mul_identity] at h1
+  exact h1
+
+theorem inv_inv (m : Mat K) (h : Matrix.Det m ≠ 0) : Matrix.Inv (Matrix.Inv m) = m := by
+  have hd : Matrix.Det (Matrix.Inv m) ≠ 0 := by
+    rw [det_inv m h]; exact one_div_ne_zero h
+  exact (inv_unique (Matrix.Inv m) m hd (mul_inv m h)).symm
+
+theorem pos_translate (x y : K) : Matrix.Pos (Matrix.Translate ident x y) = (x, y) := by
+  simp [Matrix.Pos, Matrix.Translate, Matrix.Mul, ident]
+
+/-! ## `Matrix.Rotate` (model `rotateSC`: the matrix product after `math.Sincos`) -/
+
+/-- Rotate post-multiplies by the rotation matrix: the point is rotated first, then mapped by `m` -/
+theorem rotate_dot (m : Mat K) (s c : K) (p : Pt K) :
+    Matrix.Dot (rotateSC m s c) p = Matrix.Dot m (Pt.mk (c * p.x - s * p.y) (s * p.x + c * p.y)) := by
+  rw [rotateSC_eq]; simp only [Matrix.Dot]; congr 1 <;> ring
+
+theorem rotate_det (m : Mat K) (s c : K) (h : c * c + s * s = 1) : Matrix.Det (rotateSC m s c) = Matrix.Det m := by
+  rw [rotateSC_eq]; simp only [Matrix.Det]
+  linear_combination (m.a * m.e - m.b * m.d) * h
+
+/-- two rotations compose by the angle-addition formulas -/
+theorem rotate_compose (m : Mat K) (s1 c1 s2 c2 : K) :
+    rotateSC (rotateSC m s1 c1) s2 c2 = rotateSC m (s1 * c2 + c1 * s2) (c1 * c2 - s1 * s2) := by
+  simp only [rotateSC_eq]; congr 1 <;> ring
+
+/-- `RotateAbout(rot, x, y)` fixes `(x, y)`, whatever the sine and cosine are -/
+theorem rotateAbout_fixes (rot x y : K) :
+    Matrix.Dot (rotateAbout (Canvas.C07.identity : Mat K) rot x y) (Pt.mk x y) = Pt.mk x y := by
+  simp only [rotateAbout, rotate, rotateSC_eq, ops_mtranslate, ops_sin, ops_cos, Canvas.C07.identity,
+    Matrix.Translate, Matrix.Mul, Matrix.Dot]
+  congr 1 <;> ring
+
+/-- a rotation is recognised as rigid for every tolerance `Epsilon ≥ 0` -/
+theorem rotate_isRigid (h0 : (0 : K) ≤ Env.epsilon) (s c : K) (h : c * c + s * s = 1) :
+    Matrix.IsRigid (rotateSC (Canvas.C07.identity : Mat K) s c) = true := by
+  apply (predicates_complete' h0 _).2.1
+  rw [rotateSC_eq]
+  simp only [Canvas.C07.identity]
+  refine ⟨by linear_combination h, by linear_combination h, by ring⟩
+
+/-! ## `solveQuadraticFormula`, `Matrix.Eigen` -/
+
+/-- the Go function never returns `(NaN, x)`: the model's NaN test on the first result is complete -/
+theorem solveQuadratic_fst_none (a b c : K) (h : (solveQuadratic a b c).1 = none) : (solveQuadratic a b c).2 = none :=
+  solveQuadratic_fst_none' a b c h
+
+/-- monic polynomial with positive discriminant: two results, both roots, sum `-B`, product `C` -/
+theorem solveQuadratic_monic_roots (L : Laws K) (h0 : (Env.epsilon : K) = 0) (B C : K) (hd : 0 < B * B - 4 * C) :
+    ∃ x1 x2 : K, solveQuadratic 1 B C = (some x1, some x2) ∧ x1 + x2 = -B ∧ x1 * x2 = C ∧
+      x1 * x1 + B * x1 + C = 0 ∧ x2 * x2 + B * x2 + C = 0 := by
+  obtain ⟨x1, x2, h, hs, hp⟩ := solveQuadratic_monic L h0 B C hd
+  exact ⟨x1, x2, h, hs, hp, by linear_combination x1 * hs - hp, by linear_combination x2 * hs - hp⟩
+
+/-- `Eigen` of a symmetric matrix: real eigenvalues (trace and determinant as sum and product), unit
+eigenvectors with `Q v = λ v`, and the spectral decomposition. -/
+theorem eigen_symmetric (L : Laws K) (h0 : (Env.epsilon : K) = 0) (m : Mat K) (hsym : m.b = m.d) :
+    ∃ l1 l2 : K, (eigen m).l1 = some l1 ∧ (eigen m).l2 = some l2 ∧ l1 + l2 = m.a + m.e ∧ l1 * l2 = Matrix.Det m ∧
+      SpecAt m l1 l2 (eigen m).v1 ∧ SpecAt m l2 l1 (eigen m).v2 ∧
+      (m.a * (eigen m).v1.x + m.b * (eigen m).v1.y = l1 * (eigen m).v1.x ∧ m.d * (eigen m).v1.x + m.e * (eigen m).v1.y = l1 * (eigen m).v1.y) ∧
+      (m.a * (eigen m).v2.x + m.b * (eigen m).v2.y = l2 * (eigen m).v2.x ∧ m.d * (eigen m).v2.x + m.e * (eigen m).v2.y = l2 * (eigen m).v2.y) := by
+  obtain ⟨l1, l2, h1, h2, hs, hp, S1, S2⟩ := eigen_spectral L h0 m hsym
+  refine ⟨l1, l2, h1, h2, hs, hp, S1, S2, ?_, ?_⟩
+  · obtain ⟨sa, sb, se, su⟩ := S1
+    generalize (eigen m).v1 = v at sa sb se su ⊢
+    constructor
+    · rw [sa, sb]; linear_combination (l1 * v.x) * su
+    · rw [← hsym, sb, se]; linear_combination (l1 * v.y) * su
+  · obtain ⟨sa, sb, se, su⟩ := S2
+    generalize (eigen m).v2 = v at sa sb se su ⊢
+    constructor
+    · rw [sa, sb]; linear_combination (l2 * v.x) * su
+    · rw [← hsym, sb, se]; linear_combination (l2 * v.y) * su
+
+/-- branch 4 of the model of `Eigen` (neither off-diagonal entry usable although the diagonal test failed)
+is unreachable, for every tolerance: the `else` after the two `if !Equal(..)` of the Go code is dead -/
+theorem eigen_branch_ne_4 (m : Mat K) : (eigen m).branch ≠ 4 := by
+  unfold eigen
+  simp only [ops_equal]
+  by_cases hd : Equal m.d 0 = true <;> by_cases hb : Equal m.b 0 = true
+  · simp [hd, hb]
+  · simp only [hd, hb, Bool.not_eq_true] at *
+    simp only [Bool.and_false, Bool.false_eq_true, if_false, Bool.not_true, Bool.not_false, if_true]
+    split <;> simp
+  · simp only [hd, hb, Bool.not_eq_true] at *
+    simp only [Bool.false_and, Bool.false_eq_true, if_false, Bool.not_false, if_true]
+    split <;> simp
+  · simp only [hd, hb, Bool.not_eq_true] at *
+    simp only [Bool.false_and, Bool.false_eq_true, if_false, Bool.not_false, if_true]
+    split <;> simp
+
+/-! ## The ArcTo case of `Path.Transform` -/
+
+/-- **Arc re-parametrisation is exact.** For invertible `m`, positive radii and a unit axis `(c, s)` the
+new radii and axis returned by the model of the Go code describe the ellipse whose quadratic form is the
+push-forward `M⁻ᵀ q M⁻¹` of the original one. Hypotheses: exact comparisons, `sqrt(x)² = x` (x ≥ 0),
+`hypot(x,y)² = x² + y²` (fields of `L`). -/
+theorem arc_transform_form (L : Laws K) (h0 : (Env.epsilon : K) = 0) (m : Mat K) (rx ry s c : K)
+    (hcs : c * c + s * s = 1) (hdet : Matrix.Det m ≠ 0) (hrx : 0 < rx) (hry : 0 < ry) :
+    ∃ r : ArcR K, arcCore m rx ry (s, c) = some r ∧
+      ellipseForm r.rx r.ry r.v.x r.v.y = (ellipseForm rx ry c s).push m.a m.b m.d m.e ∧
+      r.v.x * r.v.x + r.v.y * r.v.y = 1 :=
+  arcCore_image L h0 m rx ry s c hcs hdet hrx hry
+
+/-- **Point-set equality.** `p` (relative to the centre) lies on the original ellipse iff its image under the
+linear part of `m` lies on the ellipse `Path.Transform` writes (relative to the mapped centre). -/
+theorem arc_transform_points (L : Laws K) (h0 : (Env.epsilon : K) = 0) (m : Mat K) (rx ry s c : K)
+    (hcs : c * c + s * s = 1) (hdet : Matrix.Det m ≠ 0) (hrx : 0 < rx) (hry : 0 < ry) :
+    ∃ r : ArcR K, arcCore m rx ry (s, c) = some r ∧ ∀ x y : K,
+      ((ellipseForm rx ry c s).eval x y = 1 ↔
+        (ellipseForm r.rx r.ry r.v.x r.v.y).eval (m.a * x + m.b * y) (m.d * x + m.e * y) = 1) := by
+  obtain ⟨r, hr, hf, _⟩ := arcCore_image L h0 m rx ry s c hcs hdet hrx hry
+  refine ⟨r, hr, fun x y => ?_⟩
+  rw [hf, push_eval _ _ _ _ _ _ _ (by simpa [Matrix.Det] using hdet)]
+
+/-- the sweep flag flips exactly for orientation-reversing maps -/
+theorem flips_iff_det_neg (L : Laws K) (m : Mat K) : flips m = true ↔ Matrix.Det m < 0 := by
+  simp only [flips, ops_decompose, decide_eq_true_iff]
+  rw [decompose_scale_product m L.sqrt_sq]
+
+/-! ## The loop of `Path.Transform` (model `transform`: one `transformCmd` per command) -/
+
+def cmdKind : Cmd K → Nat
+  | .M _ => 1 | .L _ => 2 | .Q _ _ => 4 | .C _ _ _ => 8 | .A .. => 16 | .Z _ => 32
+
+def cmdEnd : Cmd K → Pt K
+  | .M p => p | .L p => p | .Z p => p | .Q _ p => p | .C _ _ p => p | .A _ _ _ _ _ _ p => p
+
+def cmdIsArc : Cmd K → Bool
+  | .A .. => true
+  | _ => false
+
+/-- point of the segment a non-arc drawing command traces from `p0`, at parameter `t` -/
+def segPos (p0 : Pt K) : Cmd K → K → Option (Pt K)
+  | .L p, t => some (Point.Interpolate p0 p t)
+  | .Z p, t => some (Point.Interpolate p0 p t)
+  | .Q cp p, t => some (quadraticBezierPos p0 cp p t)
+  | .C cp1 cp2 p, t => some (cubicBezierPos p0 cp1 cp2 p t)
+  | _, _ => none
+
+theorem transform_length (m : Mat K) (cs : List (Cmd K)) : (transform m cs).length = cs.length := by
+  simp [transform]
+
+/-- the command structure is preserved -/
+theorem transform_kinds (m : Mat K) (cs : List (Cmd K)) : (transform m cs).map cmdKind = cs.map cmdKind := by
+  simp only [transform, List.map_map]
+  apply List.map_congr_left
+  intro c _
+  cases c with
+  | A rx ry phi sc large sweep p =>
+    simp only [Function.comp, transformCmd]
+    cases arcCore m rx ry sc <;> rfl
+  | _ => rfl
+
+/-- every command's end point is mapped by `m` (arcs included) -/
+theorem transform_endpoints (m : Mat K) (cs : List (Cmd K)) :
+    (transform m cs).map cmdEnd = cs.map (fun c => Matrix.Dot m (cmdEnd c)) := by
+  simp only [transform, List.map_map]
+  apply List.map_congr_left
+  intro c _
+  cases c with
+  | A rx ry phi sc large sweep p =>
+    simp only [Function.comp, transformCmd]
+    cases arcCore m rx ry sc <;> rfl
+  | _ => rfl
+
+/-- **Segment by segment, same direction**: the transformed line/quadratic/cubic command traced from the
+mapped start point passes, at every parameter `t`, through the image of the original point at `t`. -/
+theorem transform_segment_points (m : Mat K) (fl : Bool) (p0 : Pt K) (c : Cmd K) (t : K) :
+    segPos (Matrix.Dot m p0) (transformCmd m fl c) t = (segPos p0 c t).map (Matrix.Dot m) := by
+  cases c with
+  | M p => rfl
+  | L p => simp only [transformCmd, segPos, ops_mdot, Option.map, line_affine]
+  | Z p => simp only [transformCmd, segPos, ops_mdot, Option.map, line_affine]
+  | Q cp p => simp only [transformCmd, segPos, ops_mdot, Option.map, quad_bezier_affine]
+  | C cp1 cp2 p => simp only [transformCmd, segPos, ops_mdot, Option.map, cube_bezier_affine]
+  | A rx ry phi sc large sweep p =>
+    simp only [transformCmd]
+    cases arcCore m rx ry sc <;> rfl
+
+/-- transforming by a product is transforming twice (paths without arcs: exact, command by command) -/
+theorem transform_comp_noarc (m q : Mat K) (cs : List (Cmd K)) (h : ∀ c ∈ cs, cmdIsArc c = false) :
+    transform (Matrix.Mul m q) cs = transform m (transform q cs) := by
+  simp only [transform, List.map_map]
+  apply List.map_congr_left
+  intro c hc
+  have := h c hc
+  cases c <;> simp_all [transformCmd, cmdIsArc, dot_mul]
+
+theorem transform_identity_noarc (cs : List (Cmd K)) (h : ∀ c ∈ cs, cmdIsArc c = false) :
+    transform (ident : Mat K) cs = cs := by
+  simp only [transform]
+  conv_rhs => rw [← List.map_id cs]
+  apply List.map_congr_left
+  intro c hc
+  have := h c hc
+  have hd : ∀ p : Pt K, Matrix.Dot (ident : Mat K) p = p := by
+    intro p; cases p; simp [Matrix.Dot, ident]
+  cases c <;> simp_all [transformCmd, cmdIsArc]
+
+/-- **An ArcTo command under `Path.Transform`**: the large-arc flag is kept, the sweep flag flips iff
+`det m < 0`, the end point is mapped by `m`, and the new radii/axis describe exactly the image ellipse. -/
+theorem transform_arc (L : Laws K) (h0 : (Env.epsilon : K) = 0) (m : Mat K) (rx ry phi s c : K) (large sweep : Bool) (p : Pt K)
+    (hcs : c * c + s * s = 1) (hdet : Matrix.Det m ≠ 0) (hrx : 0 < rx) (hry : 0 < ry) :
+    ∃ r : ArcR K,
+      transformCmd m (flips m) (.A rx ry phi (s, c) large sweep p) =
+        .A r.rx r.ry (canonPhi r.v) (r.v.y, r.v.x) large (if Matrix.Det m < 0 then !sweep else sweep) (Matrix.Dot m p) ∧
+      ellipseForm r.rx r.ry r.v.x r.v.y = (ellipseForm rx ry c s).push m.a m.b m.d m.e ∧
+      r.v.x * r.v.x + r.v.y * r.v.y = 1 := by
+  obtain ⟨r, hr, hf, hu⟩ := arcCore_image L h0 m rx ry s c hcs hdet hrx hry
+  refine ⟨r, ?_, hf, hu⟩
+  simp only [transformCmd, hr, ops_mdot]
+  by_cases hd : Matrix.Det m < 0
+  · have : flips m = true := (flips_iff_det_neg L m).mpr hd
+    simp [this, hd]
+  · have : flips m = false := by
+      rcases hfl : flips m with _ | _
+      · rfl
+      · exact absurd ((flips_iff_det_neg L m).mp hfl) hd
+    simp [this, hd]
+
+/-! ## The executable arc verdict (`arcOK`, run over exact rationals by the driver) -/
+
+/-- **Soundness**: if the verdict accepts with tolerance `rel`, then every point of the original ellipse
+(`centre + R(c,s)·(rx·x, ry·y)`, `x² + y² = 1`) is mapped by `M` to a point where the produced ellipse's
+form is within `2·rel` of 1. -/
+theorem arcOK_sound (ma mb md me rx ry c s rx' ry' c' s' rel : K)
+    (h : arcOK ma mb md me rx ry c s rx' ry' c' s' rel = true) (x y : K) (hxy : x * x + y * y = 1) :
+    |(ellipseForm rx' ry' c' s').eval (ma * (c * (rx * x) - s * (ry * y)) + mb * (s * (rx * x) + c * (ry * y)))
+        (md * (c * (rx * x) - s * (ry * y)) + me * (s * (rx * x) + c * (ry * y))) - 1| ≤ 2 * rel := by
+  unfold arcOK at h
+  have := nearId_eval _ rel x y h hxy
+  rw [pull_eval] at this
+  simp only [frame] at this
+  have hx : (ma * c + mb * s) * rx * x + (mb * c - ma * s) * ry * y =
+      ma * (c * (rx * x) - s * (ry * y)) + mb * (s * (rx * x) + c * (ry * y)) := by ring
+  have hy : (md * c + me * s) * rx * x + (me * c - md * s) * ry * y =
+      md * (c * (rx * x) - s * (ry * y)) + me * (s * (rx * x) + c * (ry * y)) := by ring
+  rw [hx, hy] at this
+  exact this
+
+/-- the verdict is monotone in the tolerance -/
+theorem arcOK_mono (ma mb md me rx ry c s rx' ry' c' s' rel rel' : K) (hle : rel ≤ rel')
+    (h : arcOK ma mb md me rx ry c s rx' ry' c' s' rel = true) : arcOK ma mb md me rx ry c s rx' ry' c' s' rel' = true := by
+  unfold arcOK at h ⊢
+  rw [nearId_iff] at h ⊢
+  exact ⟨h.1.trans hle, h.2.1.trans hle, h.2.2.trans hle⟩
+
+/-- **Completeness at tolerance 0**: what the model of `Path.Transform` returns passes the verdict exactly. -/
+theorem arcOK_complete (L : Laws K) (h0 : (Env.epsilon : K) = 0) (m : Mat K) (rx ry s c : K)
+    (hcs : c * c + s * s = 1) (hdet : Matrix.Det m ≠ 0) (hrx : 0 < rx) (hry : 0 < ry) :
+    ∃ r : ArcR K, arcCore m rx ry (s, c) = some r ∧
+      arcOK m.a m.b m.d m.e rx ry c s r.rx r.ry r.v.x r.v.y 0 = true := by
+  obtain ⟨r, hr, hf, _⟩ := arcCore_image L h0 m rx ry s c hcs hdet hrx hry
+  exact ⟨r, hr, arcOK_of_image _ _ _ _ _ _ _ _ _ _ _ _ hcs (by simpa [Matrix.Det] using hdet) hrx.ne' hry.ne' hf⟩
+
+/-! ## `Decompose` and `ToSVG` describe the same transformation -/
+
+/-- **Full recomposition** (exact comparisons): for every matrix — singular ones, reflections and the
+merged-rotation branch included — `Identity.Translate(tx,ty).Rotate(phi).Scale(sx,sy).Rotate(theta) = m`. -/
+theorem decompose_recompose (L : Laws K) (h0 : (Env.epsilon : K) = 0) (m : Mat K) :
+    recompose (Matrix.Decompose m) = m := decompose_recompose' L h0 m
+
+/-- the same for any tolerance `Epsilon ≥ 0`: every entry is within `2·Epsilon` -/
+theorem decompose_recompose_within (L : Laws K) (h0 : (0 : K) ≤ Env.epsilon) (m : Mat K) :
+    MatWithin (recompose (Matrix.Decompose m)) m (2 * Env.epsilon) := decompose_recompose_within' L h0 m
+
+/-- the `matrix(...)` notation of `ToSVG(h)` denotes `T(0,h)·G·m·G` -/
+theorem toSVG_matrix_target (m : Mat K) (h : K) : svgInterp [toSVGMatrix m h] = svgTarget m h :=
+  svg_matrix_target' m h
+
+/-- full statement: the decomposed notation of `ToSVG(h)` denotes `T(0,h)·G·m·G` for every `m`, `h` -/
+def toSVG_decomposed_target_statement (K : Type) [Field K] [LinearOrder K] [IsStrictOrderedRing K] [Env K] : Prop :=
+  ∀ (m : Mat K) (h : K), svgInterp (toSVGParts m h) = svgTarget m h
+
+/-- proved part: all `m`, `h` except zero translation with non-zero height (known defect
+C07-tosvg-height-dropped: `translate(0,h)` is not written) -/
+theorem toSVG_decomposed_target_partial (L : Laws K) (h0 : (Env.epsilon : K) = 0) (m : Mat K) (h : K)
+    (hcls : ¬ (m.c = 0 ∧ m.f = 0) ∨ h = 0) : svgInterp (toSVGParts m h) = svgTarget m h :=
+  toSVGParts_target' L h0 m h hcls
+
+/-- witness of the defect: for zero translation the decomposed notation leaves the origin where it is,
+the target moves it to `(0, h)` -/
+theorem toSVG_drops_height (h0 : (Env.epsilon : K) = 0) (m : Mat K) (h : K) (hc : m.c = 0) (hf : m.f = 0) (hh : h ≠ 0) :
+    svgInterp (toSVGParts m h) ≠ svgTarget m h := by
+  obtain ⟨h1, _, h3⟩ := toSVGParts_drops_height' h0 m h hc hf
+  intro heq
+  rw [heq, h3] at h1
+  exact hh h1
+
+/-! ## `IsTranslation`, `IsRigid`, `IsSimilarity`, `Equals` (generated definitions) -/
+
+theorem isTranslation_iff (h0 : (Env.epsilon : K) = 0) (m : Mat K) :
+    Matrix.IsTranslation m = true ↔ ∀ p : Pt K, Matrix.Dot m p = Pt.mk (p.x + m.c) (p.y + m.f) :=
+  isTranslation_iff' h0 m
+
+/-- `IsRigid` ⇔ every distance is preserved -/
+theorem isRigid_iff_isometry (h0 : (Env.epsilon : K) = 0) (m : Mat K) :
+    Matrix.IsRigid m = true ↔ ∀ p q : Pt K, dist2 (Matrix.Dot m p) (Matrix.Dot m q) = dist2 p q :=
+  isRigid_iff_isometry' h0 m
+
+/-- `IsSimilarity` ⇔ all squared distances are scaled by one factor -/
+theorem isSimilarity_iff_scaling (h0 : (Env.epsilon : K) = 0) (m : Mat K) :
+    Matrix.IsSimilarity m = true ↔ ∃ k : K, ∀ p q : Pt K, dist2 (Matrix.Dot m p) (Matrix.Dot m q) = k * dist2 p q :=
+  isSimilarity_iff_scaling' h0 m
+
+theorem equals_iff (h0 : (Env.epsilon : K) = 0) (m q : Mat K) : Matrix.Equals m q = true ↔ m = q := equals_iff' h0 m q
+
+/-- for any tolerance `Epsilon ≥ 0` exact translations / rigid maps / similarities are recognised, and
+`Equals` is reflexive -/
+theorem predicates_complete (h0 : (0 : K) ≤ Env.epsilon) (m : Mat K) :
+    (m.a = 1 ∧ m.b = 0 ∧ m.d = 0 ∧ m.e = 1 → Matrix.IsTranslation m = true) ∧
+    (m.a * m.a + m.b * m.b = 1 ∧ m.d * m.d + m.e * m.e = 1 ∧ m.a * m.d + m.b * m.e = 0 → Matrix.IsRigid m = true) ∧
+    (m.a * m.a + m.b * m.b = m.d * m.d + m.e * m.e ∧ m.a * m.d + m.b * m.e = 0 → Matrix.IsSimilarity m = true) ∧
+    Matrix.Equals m m = true := predicates_complete' h0 m
+
+/-- a rigid map has determinant ±1 and is a similarity -/
+theorem isRigid_det_and_similarity (h0 : (Env.epsilon : K) = 0) (m : Mat K) (h : Matrix.IsRigid m = true) :
+    Matrix.Det m * Matrix.Det m = 1 ∧ Matrix.IsSimilarity m = true := by
+  rw [isRigid_iff_rows h0] at h
+  obtain ⟨h1, h2, h3⟩ := h
+  constructor
+  · simp only [Matrix.Det]
+    linear_combination (m.d * m.d + m.e * m.e) * h1 + h2 - (m.a * m.d + m.b * m.e) * h3
+  · rw [isSimilarity_iff_rows h0]
+    exact ⟨by rw [h1, h2], h3⟩
+
+/-! ## Non-vacuity: the hypotheses are satisfiable (real numbers) and the hypotheses of the individual
+theorems have concrete non-trivial instances -/
+section NonVacuity
+attribute [local instance] envReal
+
+/-- `Laws` holds of the real functions, with exact comparisons -/
+example : Laws ℝ ∧ (Env.epsilon : ℝ) = 0 := ⟨lawsReal, epsReal⟩
+
+/-- `arc_transform_form`: a shear with a reflection applied to a 2×1 ellipse rotated by a 3-4-5 angle -/
+example : ∃ r : ArcR ℝ, arcCore (Mat.mk (-1) 2 5 0 1 7) 2 1 (3 / 5, 4 / 5) = some r ∧
+    ellipseForm r.rx r.ry r.v.x r.v.y = (ellipseForm 2 1 (4 / 5) (3 / 5)).push (-1) 2 0 1 :=
+  let ⟨r, h1, h2, _⟩ := arc_transform_form lawsReal epsReal (Mat.mk (-1) 2 5 0 1 7) 2 1 (3 / 5) (4 / 5)
+    (by norm_num) (by simp [Matrix.Det]) (by norm_num) (by norm_num)
+  ⟨r, h1, h2⟩
+
+/-- `eigen_symmetric`: a symmetric non-diagonal matrix -/
+example : (Mat.mk (2 : ℝ) 1 0 1 3 0).b = (Mat.mk (2 : ℝ) 1 0 1 3 0).d := rfl
+
+/-- `decompose_recompose` applies to a reflection: `ReflectX` recomposes to itself -/
+example : recompose (Matrix.Decompose (Mat.mk (-1 : ℝ) 0 0 0 1 0)) = Mat.mk (-1) 0 0 0 1 0 :=
+  decompose_recompose lawsReal epsReal _
+
+/-- `toSVG_decomposed_target_partial`: the excluded class is not everything (a translation satisfies the hypothesis) -/
+example : ¬ ((Mat.mk (1 : ℝ) 0 3 0 1 4).c = 0 ∧ (Mat.mk (1 : ℝ) 0 3 0 1 4).f = 0) ∨ (10 : ℝ) = 0 := by
+  left; simp
+
+/-- `toSVG_drops_height`: the defect class is inhabited (`Rotate(90)` with `h = 10`) -/
+example : svgInterp (toSVGParts (Mat.mk (0 : ℝ) (-1) 0 1 0 0) 10) ≠ svgTarget (Mat.mk (0 : ℝ) (-1) 0 1 0 0) 10 :=
+  toSVG_drops_height epsReal _ 10 rfl rfl (by norm_num)
+
+/-- `solveQuadratic_monic_roots`: `x² - 5x + 6` has positive discriminant -/
+example : (0 : ℝ) < (-5) * (-5) - 4 * 6 := by norm_num
+
+/-- `rotate_det`, `rotate_isRigid`, `arc_*`: a unit axis vector that is not a coordinate axis -/
+example : ((4 : ℚ) / 5) * (4 / 5) + (3 / 5) * (3 / 5) = 1 := by norm_num
+
+end NonVacuity
+
+/-- `isRigid_iff_isometry`: a reflection is rigid (over ℚ with `Epsilon = 0`) -/
+example : (1 : ℚ) * 1 + 0 * 0 = 1 ∧ (0 : ℚ) * 0 + (-1) * (-1) = 1 ∧ (1 : ℚ) * 0 + 0 * (-1) = 0 := by norm_num
+
+/-- `transform_comp_noarc`: the hypothesis holds of a path with a line and a cubic -/
+example : ∀ c ∈ ([Cmd.M ⟨0, 0⟩, Cmd.L ⟨1, 2⟩, Cmd.C ⟨1, 3⟩ ⟨2, 3⟩ ⟨3, 0⟩] : List (Cmd ℚ)), cmdIsArc c = false := by
+  intro c hc
+  simp only [List.mem_cons, List.mem_nil_iff, or_false] at hc
+  rcases hc with rfl | rfl | rfl <;> rfl
+
+/-- `arcOK_sound`: the verdict accepts the exact image of the unit circle under `diag(2, 3)` -/
+example : arcOK (2 : ℚ) 0 0 3 1 1 1 0 2 3 1 0 0 = true := by
+  simp [arcOK, frame, ellipseForm, Form.pull, Form.nearId]
 
 /-- non-vacuity: an invertible matrix exists and `inv_dot` applies to it -/
 example : Matrix.Det (Mat.mk (2 : ℚ) 1 0 0 1 3) ≠ 0 := by simp [Matrix.Det]
